@@ -8,6 +8,7 @@
    that the tokenizer's output spells its input - validated by the round-trip oracle. *)
 From MW Require Import PyBase Nodes Builder Flatten BuilderProofs.
 From MW Require Import HeadingFrag HeadingFragProofs.
+From MW Require Import EntityFrag EntityFragProofs.
 
 Theorem C01_build_flatten_partial : forall c, wf_code c -> build (fl_code c) = Ok c.
 Proof. exact build_flatten_lemma. Qed.
@@ -51,4 +52,26 @@ Print Assumptions C01_fragment_end_to_end.
 Example C01_fragment_example :
   frag_tokens 100 [61;61;32;97;32;61;32;98;32;61;61;10;120;61]%N =
   [THeadingStart 2; TText [32;97;32;61;32;98;32]%N; THeadingEnd; TText [10;120;61]%N].
+Proof. vm_compute. reflexivity. Qed.
+
+(* ---- the tokenizer on the entity fragment (coq/EntityFrag.v: '&', '#', ';' and non-markers on one line), tied to
+   BOTH real tokenizers by correspondence (tools/headfrag.py run_entities).  For EVERY string and EVERY marker table,
+   entity-name table and size limit. *)
+Theorem C01_entity_fragment_lossless : forall markers names msize s, str_code (efrag_nodes markers names msize s) = s.
+Proof. exact efrag_lossless. Qed.
+
+Theorem C01_entity_fragment_end_to_end : forall markers names msize s,
+  exists c, build (efrag_tokens markers names msize s) = Ok c /\ str_code c = s.
+Proof. exact efrag_end_to_end. Qed.
+
+Print Assumptions C01_entity_fragment_lossless.
+Print Assumptions C01_entity_fragment_end_to_end.
+
+(* Non-vacuity: "a&amp;&#x41;&#0065;&x;&#;" - three entities, then the two '&' that are not entities stay text *)
+Example C01_entity_fragment_example :
+  efrag_tokens [10; 35; 38; 59; 61]%N [[97; 109; 112]%N] 8
+    [97; 38; 97; 109; 112; 59; 38; 35; 120; 52; 49; 59; 38; 35; 48; 48; 54; 53; 59; 38; 120; 59; 38; 35; 59]%N =
+  [TText [97%N]; THTMLEntityStart; TText [97; 109; 112]%N; THTMLEntityEnd;
+   THTMLEntityStart; THTMLEntityNumeric; THTMLEntityHex [120%N]; TText [52; 49]%N; THTMLEntityEnd;
+   THTMLEntityStart; THTMLEntityNumeric; TText [48; 48; 54; 53]%N; THTMLEntityEnd; TText [38; 120; 59; 38; 35; 59]%N].
 Proof. vm_compute. reflexivity. Qed.
